@@ -339,6 +339,18 @@ def gen_genbank(rng, n):
         elif r < 0.96:
             ops.append({"op": "typed_annotation", "features": gen_annotation(rng, 500), "medium": rng.choice(MEDIA)})
             size += 1
+        elif r < 0.965:
+            k = rng.randint(2, 3)
+            recs = []
+            for _ in range(k):
+                kind = rng.choice(["nuc", "prot_stop"])
+                seq = gen_seq(rng, kind, 1, 80)
+                recs.append({"kind": kind, "seq": seq, "start": rng.choice([1, 11]), "features": gen_annotation(rng, max(len(seq), 2)),
+                             "definition": rng.choice(["first record", "another one", "x"])})
+            if len({x["kind"] for x in recs}) > 1:
+                for x in recs:
+                    x["kind"], x["seq"] = recs[0]["kind"], gen_seq(rng, recs[0]["kind"], 1, 80)
+            ops.append({"op": "multi_record", "records": recs, "medium": rng.choice(MEDIA)})
         elif r < 0.98:
             ops.append({"op": "typed_locus", "name": rng.choice(["AB000001", "seq", "NC_000913.3"]), "length": rng.choice([1, 1234, 4641652]),
                         "mol_type": rng.choice(["DNA", "mRNA", "ss-RNA", "Protein"]), "circular": rng.random() < 0.5,
@@ -1253,6 +1265,52 @@ class GenBankSim(Base):
         self.compare_annotation(back, annot, op["features"], "annotation")
         self.file = new
         self.readbacks += 1
+        self.res.stats["probe:typed-roundtrip"] += 1
+        return "ok"
+
+    def op_multi_record(self, op):
+        """Several records written one after the other into one medium come back, in order, through MultiFile."""
+        from biotite.sequence import AnnotatedSequence
+        from biotite.sequence.io import genbank as gb
+
+        files = []
+        expected = []
+        for rec in op["records"]:
+            f = self.F()
+            seq = self.make_seq(rec["kind"], rec["seq"])
+            annot = make_annotation(rec["features"])
+            f.set_field("DEFINITION", [rec["definition"]])
+            gb.set_annotated_sequence(f, AnnotatedSequence(annot, seq, sequence_start=rec["start"]))
+            files.append(f)
+            expected.append((rec["definition"], rec["seq"], rec["start"], annot))
+        fmt = "gp" if op["records"][0]["kind"].startswith("prot") else "gb"
+
+        def writer(tgt):
+            if isinstance(tgt, str):
+                with open(tgt, "w") as fh:
+                    for f in files:
+                        f.write(fh)
+            else:
+                for f in files:
+                    f.write(tgt)
+
+        st, multi = call(self.through, op["medium"], writer, gb.MultiFile.read, ".gb")
+        if st == "exc":
+            self.fail("multi:read-raised", got=exc_name(multi), msg=str(multi)[:200])
+        st, recs = call(lambda: list(multi))
+        if st == "exc":
+            self.fail("multi:iteration-raised", got=exc_name(recs), msg=str(recs)[:200])
+        if len(recs) != len(expected):
+            self.fail("multi:record-count", got=len(recs), expected=len(expected))
+        for i, (f, (definition, seq, start, annot)) in enumerate(zip(recs, expected)):
+            st, back = call(lambda: (gb.get_definition(f), gb.get_annotated_sequence(f, fmt)))
+            if st == "exc":
+                self.fail("multi:record-unreadable", index=i, got=exc_name(back), msg=str(back)[:200])
+            d, aseq = back
+            if d != definition or str(aseq.sequence) != seq or aseq.sequence_start != start or aseq.annotation != annot:
+                self.fail("multi:record-changed", index=i, got=[d, str(aseq.sequence)[:40], aseq.sequence_start], expected=[definition, seq[:40], start])
+        self.readbacks += 1
+        self.mutations += 1
         self.res.stats["probe:typed-roundtrip"] += 1
         return "ok"
 
